@@ -23,6 +23,7 @@ type sample struct {
 	Events []string          `json:"events"`
 	Path   []string          `json:"path,omitempty"`
 	Pinned bool              `json:"crc_pinned"`
+	SchedEvents []string     `json:"sched_events,omitempty"`
 	OSTrace []string         `json:"os_trace,omitempty"`
 }
 
@@ -103,7 +104,7 @@ func main() {
 	}
 
 	t0 := time.Now()
-	cfg := &packages.Config{Mode: packages.LoadAllSyntax, Dir: *dir, Env: append(os.Environ(), "GOFLAGS=-mod=mod", "GOPROXY=off", "GOSUMDB=off")}
+	cfg := &packages.Config{Mode: packages.LoadAllSyntax, Dir: *dir, BuildFlags: []string{"-tags=verif"}, Env: append(os.Environ(), "GOFLAGS=-mod=mod", "GOPROXY=off", "GOSUMDB=off")}
 	pkgs, err := packages.Load(cfg, *pkgPat)
 	if err != nil {
 		fmt.Fprintln(os.Stderr, "load error:", err)
@@ -252,7 +253,7 @@ func (m *Machine) samplePath() (sample, bool) {
 	}
 	model := m.solver.Values(m.vars)
 	model, pinned := m.pinSums(model)
-	s := sample{Inputs: model, Events: m.eventStrings(model, -1), Pinned: pinned, OSTrace: append([]string(nil), m.fsEvents...)}
+	s := sample{Inputs: model, Events: m.eventStrings(model, -1), Pinned: pinned, OSTrace: append([]string(nil), m.fsEvents...), SchedEvents: append([]string(nil), m.hookTrace...)}
 	for _, d := range m.trace {
 		if d.forked {
 			s.Path = append(s.Path, fmt.Sprintf("%s=%d", d.what, d.chosen))
@@ -282,6 +283,8 @@ func (m *Machine) runPath(hp *ssa.Package, fn *ssa.Function, res *result) (compl
 	m.pendingAbort = nil
 	m.schedMode = false
 	m.schedTrace = nil
+	m.hookTrace = nil
+	m.hookOnly = false
 	m.fsEvents = nil
 	m.osst = nil
 	m.osEvents = nil
